@@ -501,11 +501,12 @@ def paths_case(ctx, g):
             variants.append(v)
     # the in-memory path takes the same options (n_prior_samples, randomize_prior_order, max_prior_samples) and must
     # evaluate and accept the same prior samples with equal seeds; only n_batches has no meaning there
-    v = copy.deepcopy(base)
-    v["in_memory"] = True
-    v["source"] = "object"
-    v["opts"].pop("n_batches", None)
-    variants.append(v)
+    for source in ("object", "file"):
+        v = copy.deepcopy(base)
+        v["in_memory"] = True
+        v["source"] = source
+        v["opts"].pop("n_batches", None)
+        variants.append(v)
     if o.get("randomize_prior_order") or o.get("n_prior_samples") is not None or o.get("max_prior_samples") is not None:
         ctx.count("paths:in-memory variant with n_prior_samples / max_prior_samples / randomize_prior_order")
     results = []
